@@ -4,7 +4,7 @@ from props import solverstream as ss
 
 THEOREMS = ["C04_render_terminates", "C04_render_fuel_irrelevant", "C04_render_lines_linear", "C04_render_lines_fine",
             "C04_render_lines_quadratic", "C04_render_size_bound", "C04_simplify_order_independent", "C04_dfs_fuel_sufficient",
-            "C04_pre_fix_renderer_loops", "C04_path_only_exponential", "C04_requires_assert_cannot_fail", "C04_decide_unreachable_needs_falsified_clause", "C04_complete_no_panic"]
+            "C04_pre_fix_renderer_loops", "C04_path_only_exponential", "C04_requires_assert_cannot_fail", "C04_decide_unreachable_needs_falsified_clause", "C04_complete_no_panic", "C04_checked_propagate_complete"]
 CHECKER = ("coqc Props/C04.v + Print Assumptions; harness solve_cases under catch_unwind + poll watchdog + output-size cap, debug "
            "and release, sync and yielding runtimes; every conflict message compared BYTE FOR BYTE with the extracted renderer model "
            "(Conflict/Render.v) and its line count with the proven bound lin_bound; a sample re-proved inside Coq")
@@ -73,6 +73,12 @@ def run(res, tier, seed, replay):
         if d_ is not None and "error" not in d_ and not d_["ok"] and ss.outcome_kind(r["obs"]["outcome"]) in ("sat", "unsat"):
             res.tie_break(f"decide correspondence no longer checks in {r['stream']} (the model of Solver::decide proposes something else, or "
                           f"reaches its unreachable!()): {d_}", dict(ss.replay_obj(r), decides=d_))
+    antie.annotate_propagates(erecs)
+    for r in erecs:
+        if not antie.ok_propagates(r):
+            res.tie_break(f"propagate correspondence / hypotheses of C04_checked_propagate_complete no longer check in {r['stream']} (comp_bad = calls "
+                          f"of Solver::propagate at which a watched clause -- not born falsified -- had both watched literals false by propagated "
+                          f"entries, or a watching clause was missing from a watch list): {r['props']}", dict(ss.replay_obj(r), propagate=r["props"]))
     enctie.annotate(erecs)
     for r in erecs:
         if "enc" in r and not enctie.ok(r, ("db", "done", "req_true", "quiet", "assert")):
